@@ -37,17 +37,17 @@ A == NumOf(cs.l)
 Bn == NumOf(cs.r)
 IsBin == cs.op \in BinOps
 
-WitnessPermitted == Done => WitnessOk(cs)
-RelationsFunctional == Done => Functional(cs)
+WitnessPermitted == Done => WitnessOkW(cs, res)
+RelationsFunctional == Done => FunctionalW(cs, res)
 ResultsInRange == Done => InRange(res)
 WitnessIsOutcome == Done => Permitted(cs, WitnessOutcome(res)) \/ (res.k = "none" /\ res.orEmpty)
 
 RingLaws ==
   (Done /\ IsBin) =>
-     CASE cs.op \in {"+", "*"} -> LawCommutes(A, Bn)
+     CASE cs.op \in {"+", "*"} -> LawCommutesW(cs.op, A, Bn, res)
        [] cs.op = "-" -> LawAntiCommutes(A, Bn)
        [] cs.op \in {"div", "mod"} -> LawDivMod(A, Bn)
-       [] cs.op = "/" -> LawQuotient(A, Bn)
+       [] cs.op = "/" -> LawQuotientOdd(A, Bn)
 UnaryLaws ==
   (Done /\ ~IsBin) =>
      CASE cs.op = "neg" -> LawNeg(A)
@@ -56,4 +56,5 @@ UnaryLaws ==
 (* distributivity: the third operand ranges over a fixed small set *)
 Thirds == {NumI(0), NumI(-7), NumI(2147483647), NumD(DMake(TRUE, <<5>>, -1)), NumD(DMake(FALSE, <<1>>, -30))}
 Distributes == (Done /\ cs.op = "*") => \A c \in Thirds : LawDistributes(A, Bn, c)
+
 =============================================================================
